@@ -7,9 +7,9 @@ Property theorems only, about the model in Model/CollFilters.lean (tera/src/filt
 to the code on every run.  `slice::sort_by`, `BTreeSet` and `HashMap` are reference models that
 are lawful for a total order / lawful Eq+Hash — which is what C15 proves about `Value::cmp` and
 `Key` (Lemmas/ValueOrder.lean, MapEq.lean, KeyOrder.lean).  Helper lemmas: Lemmas/SortLemmas.lean,
-Lemmas/CollLemmas.lean.
+Lemmas/CollLemmas.lean, Lemmas/SortRefusal.lean.
 -/
-import TeraModel.Lemmas.CollLemmas
+import TeraModel.Lemmas.SortRefusal
 namespace Tera.C16
 open Tera Tera.Value Tera.Coll
 
@@ -90,16 +90,56 @@ theorem C16_sort_attribute_contract (H : List HashTok → Nat) (val out : List V
           (Value.cmp_laws.eq_symm (wk y hy) wkk py)
     · cases h
 
-/-- The refusal clause at full strength (any keys, nested arrays and maps included): two non-none
-elements that `partial_cmp` cannot compare make `sort` answer the "not comparable" error.
-Proved below (`C16_sort_comparability`, second part) under the extra hypothesis that the elements
-are scalars; for keys that are arrays it would need that arrays incomparable with each other are
-never separated, in `cmp` order, by a chain of pairwise comparable ones — not proved; the harness
-checks that clause on nested keys directly on the engine. -/
-def C16_sort_refusal_full : Prop :=
-  ∀ (H : List HashTok → Nat) (val : List Value), (∀ x ∈ val, x.WF) →
-    (∃ a ∈ val, ∃ b ∈ val, a ≠ .none ∧ b ≠ .none ∧ Value.partialCmp a b = Option.none) →
-    sort H val Option.none = .notComparable
+/-- **C16 (`sort` refuses keys that are not mutually comparable — full strength).** For any
+elements, nested arrays and maps included: if two elements at different positions of the input
+(`[a, b] <+~ val`: `a` and `b` occur in `val` at two distinct places, in either order) are not none
+and `partial_cmp` cannot compare them, `sort` answers the "not comparable" error.  The check only
+looks at neighbours of the sorted sequence; that this suffices is because comparability is
+transitive along the `cmp` order (Lemmas/SortRefusal.lean). -/
+theorem C16_sort_refuses_incomparable (H : List HashTok → Nat) (val : List Value)
+    (w : ∀ x ∈ val, x.WF) (a b : Value) (na : a ≠ .none) (nb : b ≠ .none)
+    (hab : Value.partialCmp a b = Option.none) (two : List.Subperm [a, b] val) :
+    sort H val Option.none = .notComparable := by
+  have hv : val.isEmpty = false := by
+    cases val with
+    | nil => simp at two
+    | cons x xs => rfl
+  have hs : ensureComparable (sortBy Value.cmp val) = false :=
+    ensureComparable_refuses _ (fun x hx => w x ((mem_sortBy' _ x val).1 hx))
+      (sortBy_sorted Value.cmp_laws val w) a b na nb hab
+      ((sortBy_perm Value.cmp val).subperm_left.2 two)
+  simp [sort, hv, hs]
+
+/-- **C16 (the same for `sort(attribute=…)`).** Two elements at different positions whose attribute
+values are not none and not comparable make `sort` answer the "not comparable" error. -/
+theorem C16_sort_attribute_refuses_incomparable (H : List HashTok → Nat) (val : List Value)
+    (attr : List Char) (w : ∀ x ∈ val, x.WF) (dec : List (Value × Value))
+    (hd : decorateAttr H attr val = some dec) (a b : Value) (na : a ≠ .none) (nb : b ≠ .none)
+    (hab : Value.partialCmp a b = Option.none) (two : List.Subperm [a, b] (dec.map (·.1))) :
+    sort H val (some attr) = .notComparable := by
+  obtain ⟨d1, d2⟩ := decorateAttr_spec H attr val dec hd
+  have hv : val.isEmpty = false := by
+    cases val with
+    | nil =>
+      simp only [decorateAttr, Option.some.injEq] at hd; subst hd; simp at two
+    | cons x xs => rfl
+  have wk : ∀ p ∈ dec, p.1.WF := by
+    intro p hp
+    have hm : p.2 ∈ val := by rw [← d1]; exact List.mem_map_of_mem hp
+    exact getFromPath_wf H p.2 p.1 attr (w p.2 hm) (d2 p hp)
+  have L : OrdLaws (fun p : Value × Value => p.1.WF) (fun a b => Value.cmp a.1 b.1) :=
+    Value.cmp_laws.comap (fun p : Value × Value => p.1)
+  have srt : Sorted Value.cmp ((sortBy (fun a b => Value.cmp a.1 b.1) dec).map (·.1)) := by
+    have := sortBy_sorted L dec wk
+    unfold Sorted at this ⊢
+    rw [List.pairwise_map]; exact this
+  have hs : ensureComparable ((sortBy (fun a b => Value.cmp a.1 b.1) dec).map (·.1)) = false := by
+    apply ensureComparable_refuses _ ?_ srt a b na nb hab
+    · exact (((sortBy_perm _ dec).map (·.1)).subperm_left).2 two
+    · intro x hx
+      obtain ⟨p, hp, rfl⟩ := List.mem_map.1 hx
+      exact wk p ((mem_sortBy' _ p dec).1 hp)
+  simp [sort, hv, hd, hs]
 
 /-- **C16 (`sort` refuses incomparable keys, accepts comparable ones).** With the none keys set
 aside: if every two elements are `partial_cmp`-comparable, `sort` answers `Ok`; if the elements
@@ -307,6 +347,13 @@ example : splitStr "a,b,".toList ",".toList = ["a".toList, "b".toList, []] := by
 example : (match sort (fun _ => 0) [.u64 3, .none, .i64 1, .f64 (F64.ofBits 0x4000000000000000)] none with
     | .ok [.i64 1, .f64 _, .u64 3, .none] => true | _ => false) = true := by decide
 example : (match sort (fun _ => 0) [.u64 1, .none, .undef] none with
+    | .notComparable => true | _ => false) = true := by decide
+/-- nested keys: `[1, "x"]` and `[1, 3]` are incomparable and not neighbours in the input -/
+example : List.Subperm [Value.arr [.u64 1, .str false ['x']], Value.arr [.u64 1, .u64 3]]
+    [Value.arr [.u64 1, .u64 3], Value.arr [.u64 0], Value.arr [.u64 1, .str false ['x']]] :=
+  ⟨[Value.arr [.u64 1, .u64 3], Value.arr [.u64 1, .str false ['x']]], List.Perm.swap _ _ _,
+    (List.Sublist.cons_cons _ (List.Sublist.cons _ (List.Sublist.cons_cons _ List.Sublist.slnil)))⟩
+example : (match sort (fun _ => 0) [.arr [.u64 1, .u64 3], .arr [.u64 0], .arr [.u64 1, .str false ['x']]] Option.none with
     | .notComparable => true | _ => false) = true := by decide
 example : (unique [.map [(.str ['a'], .u64 1)], .map [(.str ['a'], .u64 2)], .u64 1, .i64 1]).length = 3 := by
   decide
